@@ -161,6 +161,60 @@ fn observe_uint(x: &BigUint, v: &Nat, refs: &[(Nat, BigUint)]) -> Option<String>
 
 // ---------------------------------------------------------------- BigInt history model
 
+fn enc_hist(init: u16, hist: &[Act]) -> String {
+    let codes: Vec<String> = hist
+        .iter()
+        .map(|a| match a {
+            Act::Op(o, i) => format!("O{}.{}", o, i),
+            Act::Shl(s) => format!("L{}", s),
+            Act::Shr(s) => format!("R{}", s),
+            Act::SetBit(b, v) => format!("B{}.{}", b, *v as u8),
+            Act::SetZero => "Z".to_string(),
+            Act::SetOne => "I".to_string(),
+            Act::CloneFrom(i) => format!("C{}", i),
+            Act::AssignSlice(s, l) => format!("A{}.{}", s, l),
+            Act::Neg => "N".to_string(),
+            Act::Not => "T".to_string(),
+        })
+        .collect();
+    format!("init={} acts={}", init, codes.join(","))
+}
+fn dec_hist(key: &str) -> Option<(u16, Vec<Act>)> {
+    let init: u16 = key.split("init=").nth(1)?.split_whitespace().next()?.parse().ok()?;
+    let acts = key.split("acts=").nth(1)?.split_whitespace().next().unwrap_or("");
+    let mut out = Vec::new();
+    for c in acts.split(',').filter(|c| !c.is_empty()) {
+        let (k, rest) = c.split_at(1);
+        let two = |r: &str| -> Option<(u32, u32)> {
+            let (a, b) = r.split_once('.')?;
+            Some((a.parse().ok()?, b.parse().ok()?))
+        };
+        out.push(match k {
+            "O" => {
+                let (a, b) = two(rest)?;
+                Act::Op(a as u8, b as u8)
+            }
+            "L" => Act::Shl(rest.parse().ok()?),
+            "R" => Act::Shr(rest.parse().ok()?),
+            "B" => {
+                let (a, b) = two(rest)?;
+                Act::SetBit(a, b == 1)
+            }
+            "Z" => Act::SetZero,
+            "I" => Act::SetOne,
+            "C" => Act::CloneFrom(rest.parse().ok()?),
+            "A" => {
+                let (a, b) = two(rest)?;
+                Act::AssignSlice(a as u8, b as u8)
+            }
+            "N" => Act::Neg,
+            "T" => Act::Not,
+            _ => return None,
+        });
+    }
+    Some((init, out))
+}
+
 #[derive(Clone, Copy, Debug, PartialEq, Eq, Hash)]
 enum Act {
     Op(u8, u8), // operator, operand index
@@ -496,7 +550,7 @@ impl IntModel {
             let htxt = format!("{} ; {:?}", init_int(init as usize).2, hist);
             let mut vs = self.shared.viols.lock().unwrap();
             if vs.len() < 200 {
-                vs.push((format!("BigInt-hist {}", htxt), htxt, w));
+                vs.push((format!("BigInt-hist {}", enc_hist(init, &hist)), htxt, w));
             }
         }
         if !hist.is_empty() && (d.len() >= 2 || cap > d.len()) {
@@ -755,7 +809,7 @@ impl UintModel {
             let htxt = format!("{} ; {:?}", init_uint(init as usize).2, hist);
             let mut vs = self.shared.viols.lock().unwrap();
             if vs.len() < 200 {
-                vs.push((format!("BigUint-hist {}", htxt), htxt, w));
+                vs.push((format!("BigUint-hist {}", enc_hist(init, &hist)), htxt, w));
             }
         }
         if !hist.is_empty() && (d.len() >= 2 || cap > d.len()) {
@@ -813,7 +867,68 @@ impl Model for UintModel {
     }
 }
 
+/// Replay of one recorded history without the explorer: rebuild the object from its initial
+/// construction, apply the recorded operations one by one to the real object and the model, and
+/// observe after the last step.
+fn replay_one(ctx: &mut Ctx, key: &str) -> bool {
+    let (is_int, is_uint) = (key.starts_with("BigInt-hist "), key.starts_with("BigUint-hist "));
+    if !is_int && !is_uint {
+        return false;
+    }
+    let (init, hist) = match dec_hist(key) {
+        Some(x) => x,
+        None => return false,
+    };
+    let space = if is_int { "H-BigInt" } else { "H-BigUint" };
+    if !ctx.space(space) || !ctx.mine(0) {
+        return true;
+    }
+    ctx.case();
+    ctx.calls(hist.len() as u64);
+    ctx.compared(1);
+    let what: Option<String> = if is_int {
+        let (mut x, mut v, desc) = init_int(init as usize);
+        println!("  direct replay: {} ; {:?}", desc, hist);
+        let mut panicked = None;
+        for &a in &hist {
+            if let Err(m) = apply_int(&mut x, &mut v, a) {
+                panicked = Some(m);
+            }
+        }
+        let refs: Vec<(Int, BigInt)> = ref_points().into_iter().map(|r| (r.clone(), bi_int(&r))).collect();
+        match panicked {
+            Some(m) => Some(format!("operation panicked: {}", m)),
+            None => guard(|| observe_int(&x, &v, &refs)).unwrap_or_else(|m| Some(format!("observer panicked (debug assertion on a denormalised value?): {}", m))),
+        }
+    } else {
+        let (mut x, mut v, desc) = init_uint(init as usize);
+        println!("  direct replay: {} ; {:?}", desc, hist);
+        let mut panicked = None;
+        for &a in &hist {
+            if let Err(m) = apply_uint(&mut x, &mut v, a) {
+                panicked = Some(m);
+            }
+        }
+        let refs: Vec<(Nat, BigUint)> = operand_pool_nat().into_iter().map(|r| (r.clone(), bu_nat(&r))).collect();
+        match panicked {
+            Some(m) => Some(format!("operation panicked: {}", m)),
+            None => guard(|| observe_uint(&x, &v, &refs)).unwrap_or_else(|m| Some(format!("observer panicked (debug assertion on a denormalised value?): {}", m))),
+        }
+    };
+    if let Some(w) = what {
+        ctx.viol(key.to_string(), &w, vec![format!("{:?}", hist)], "indistinguishable from a fresh canonical object of the model value".into(), w.clone());
+    }
+    true
+}
+
 fn run_hist(ctx: &mut Ctx) {
+    if ctx.is_replay() {
+        if let Ok(key) = std::env::var("NBMC_REPLAY_KEY") {
+            if replay_one(ctx, &key) {
+                return;
+            }
+        }
+    }
     let depth = std::env::var("NBMC_C04_DEPTH").ok().and_then(|s| s.parse().ok()).unwrap_or(ctx.tier.pick(3, 5));
     let threads = std::thread::available_parallelism().map(|n| n.get()).unwrap_or(4);
     if ctx.space("H-BigInt") && ctx.mine(0) {
